@@ -8,7 +8,8 @@ use rtcm_rs::prelude::*;
 use rtcm_rs::util::{ArrayString, Df88591String};
 use serde_json::json;
 
-const SIGMA: [char; 8] = ['A', '\0', '\u{a4}', '\u{e9}', '\u{ff}', '\u{100}', '\u{20ac}', '\u{1f600}'];
+// the last two are astral characters whose low 16 bits are a Latin-1 code (truncating casts map them to 'A' / 0x0B)
+const SIGMA: [char; 10] = ['A', '\0', '\u{a4}', '\u{e9}', '\u{ff}', '\u{100}', '\u{20ac}', '\u{1f600}', '\u{10041}', '\u{2000b}'];
 
 fn strings_over(alpha: &[char], maxlen: usize) -> Vec<String> {
     let mut out = vec![String::new()];
@@ -140,6 +141,29 @@ pub fn c17(ctx: &Ctx) -> (Report, Meta) {
             conv_check::<7>(&mut rep, s);
             conv_check::<31>(&mut rep, s);
             conv_check::<255>(&mut rep, s);
+            rep.states += 1;
+        }
+        watch_leave();
+        rep
+    });
+    for p in parts {
+        rep.merge(p);
+    }
+    // the per-character mapping for EVERY character: the one-character string and the character between two 'A's
+    let parts = par_shards(nsh, |sh| {
+        let mut rep = Report::new();
+        watch_enter(0x1702_0000 + sh as u64);
+        let mut buf = String::new();
+        for cp in (sh as u32..0x11_0000).step_by(nsh) {
+            let Some(c) = char::from_u32(cp) else { continue };
+            buf.clear();
+            buf.push(c);
+            conv_check::<7>(&mut rep, &buf);
+            buf.clear();
+            buf.push('A');
+            buf.push(c);
+            buf.push('A');
+            conv_check::<7>(&mut rep, &buf);
             rep.states += 1;
         }
         watch_leave();
@@ -452,7 +476,7 @@ pub fn c17(ctx: &Ctx) -> (Report, Meta) {
     rep.sample(json!({"conversion":"Df88591String<7> / ArrayString<7>","input":"U+0041 U+0000 U+00E9 U+20AC U+1F600","expect":"bytes 41 A4 E9 A4 A4 / longest whole-character prefix within 7 bytes"}));
     rep.sample(json!({"frame":"1029 with text bytes C0 80","expect":"Corrupt"}));
     let meta = Meta {
-        rule: "conversions: every string over {A, NUL, U+A4, U+E9, U+FF, U+100, U+20AC, U+1F600} up to maxlen into Df88591String<N> and ArrayString<N>, N in {7,31,255}; every string over {A, U+E9, U+20AC, U+1F600} up to length 9/10 for N=7; 'A'^k (k around the capacity) + every 3-character tail for N=31,255; compared with the reference Latin-1 mapping (first N characters, 1..255 -> byte, else A4), the longest whole-character prefix, and a hand-written UTF-8 validator. Messages 1007, 1008, 1021, 1022, 1033, 1300-1302 round-tripped with descriptor strings of every length 0..=31 (ASCII / high Latin-1 / mixed); 1029 with texts around 127 characters and 255 bytes (must be refused beyond) and harness-written 1029 frames whose text is every 2-byte sequence plus malformed UTF-8 classes (must be Corrupt iff invalid). states = strings / messages / frames".into(),
+        rule: "conversions: every one of the 1 112 064 characters alone and between two 'A's; every string over {A, NUL, U+A4, U+E9, U+FF, U+100, U+20AC, U+1F600, U+10041, U+2000B} up to maxlen into Df88591String<N> and ArrayString<N>, N in {7,31,255}; every string over {A, U+E9, U+20AC, U+1F600} up to length 9/10 for N=7; 'A'^k (k around the capacity) + every 3-character tail for N=31,255; compared with the reference Latin-1 mapping (first N characters, 1..255 -> byte, else A4), the longest whole-character prefix, and a hand-written UTF-8 validator. Messages 1007, 1008, 1021, 1022, 1033, 1300-1302 round-tripped with descriptor strings of every length 0..=31 (ASCII / high Latin-1 / mixed); 1029 with texts around 127 characters and 255 bytes (must be refused beyond) and harness-written 1029 frames whose text is every 2-byte sequence plus malformed UTF-8 classes (must be Corrupt iff invalid). states = strings / messages / frames".into(),
         exhaustive: true,
         bounds: json!({"alphabet_maxlen": maxlen, "n7_maxlen": ctx.tier.pick(9,10)}),
         assumptions: vec![],
